@@ -168,6 +168,22 @@ def _recording_keychain_class(N):
     return _RECKC[base]
 
 
+def _script_container(sc, scripts):
+    """the scripts as the kind of iterable the pass names (generators and iterators can be read once)"""
+    scripts = list(scripts)
+    if sc == "list":
+        return scripts
+    if sc == "tuple":
+        return tuple(scripts)
+    if sc == "set":
+        return set(scripts)
+    if sc == "gen":
+        return (x for x in scripts)
+    if sc == "iter":
+        return iter(scripts)
+    raise ValueError(sc)
+
+
 def _index_collection(ic, idx):
     if ic == "none":
         return None
@@ -201,7 +217,7 @@ class Session(object):
                       for t, u in zip(tx0.txs_in, tx0.unspents)]
         payables = [(self.ring.key(20 + j).address(), 1000 + 7 * j) for j in range(len(tx0.txs_out))]
         wifs = [self.ring.wif(k, "c" if k % 2 else "u") for k in sorted(p["K"])]
-        p2sh = N.tx.solve.build_p2sh_lookup(self._scripts()) if p["scr"] else None
+        p2sh = N.tx.solve.build_p2sh_lookup(_script_container(p.get("sc", "list"), self._scripts())) if p["scr"] else None
         try:
             tx = N.tx_utils.create_signed_tx(spendables, payables, wifs=wifs, fee=0, hash_type=p["ht"], p2sh_lookup=p2sh)
             self.raised = False
@@ -251,26 +267,32 @@ class Session(object):
         kc._verif_log = []
         return kc
 
-    def _kc_add_to(self, kc, reg, sec, scr):
-        for f, master in self.ring.masters.items():
+    def _kc_add_to(self, kc, reg, sec, scr, via="paths", sc="list"):
+        if via == "paths":
+            for f, master in self.ring.masters.items():
+                for k in sorted(reg):
+                    if master_of(k) != f:
+                        continue
+                    path = path_of(k)
+                    # registering a path needs no secret: through the public node where derivation allows it
+                    node = master if ("H" in path or k % 2) else master.public_copy()
+                    kc.add_key_paths(node, [path])
+        else:
+            # ONE add_keys_path call per path over both masters (the key's own master first or second)
+            order = [1, 2] if via == "keys12" else [2, 1]
             for k in sorted(reg):
-                if master_of(k) != f:
-                    continue
-                path = path_of(k)
-                # registering a path needs no secret: through the public node where derivation allows it
-                node = master if ("H" in path or k % 2) else master.public_copy()
-                kc.add_key_paths(node, [path])
+                kc.add_keys_path([self.ring.masters[f] for f in order], path_of(k))
         if sec:
             kc.add_secrets([self.ring.masters[f] for f in sorted(sec)])
         if scr:
-            kc.add_p2s_scripts(self._scripts())
+            kc.add_p2s_scripts(_script_container(sc, self._scripts()))
 
     def _live_kc(self):
         if self.kc is None:
             kc = self._new_kc()
             for op in self.kc_log:
                 if op[0] == "add":
-                    self._kc_add_to(kc, op[1], op[2], op[3])
+                    self._kc_add_to(kc, op[1], op[2], op[3], op[4], op[5])
                 else:
                     kc.get(op[1])
             kc._verif_log = []
@@ -282,19 +304,19 @@ class Session(object):
             self.kc_log += self.kc._verif_log
             self.kc._verif_log = []
 
-    def kc_add(self, reg, sec, scr, fresh=False):
+    def kc_add(self, reg, sec, scr, fresh=False, via="paths", sc="list"):
         if fresh:
             self.kc, self.kc_log, self.kc_content = None, [], (frozenset(), frozenset(), False)
         kc = self._live_kc()
-        self._kc_add_to(kc, reg, sec, scr)
-        self.kc_log.append(("add", tuple(sorted(reg)), tuple(sorted(sec)), bool(scr)))
+        self._kc_add_to(kc, reg, sec, scr, via, sc)
+        self.kc_log.append(("add", tuple(sorted(reg)), tuple(sorted(sec)), bool(scr), via, sc))
         c = self.kc_content
         self.kc_content = (c[0] | frozenset(reg), c[1] | frozenset(sec), c[2] or bool(scr))
 
     def sign(self, p):
         N = self.net
         if p["mech"] == "kc_add":
-            self.kc_add(p["reg"], p["sec"], p["scr"])
+            self.kc_add(p["reg"], p["sec"], p["scr"], via=p.get("via", "paths"), sc=p.get("sc", "list"))
             return
         if p["mech"] == "create_signed":
             self.create_signed(p)
@@ -306,7 +328,8 @@ class Session(object):
         idx = _index_collection(ic, sorted(i - 1 for i in p["I"]))
         ht = p["ht"]
         mech = p["mech"]
-        p2sh = N.tx.solve.build_p2sh_lookup(self._scripts()) if p["scr"] else None
+        sc = p.get("sc", "list")
+        p2sh = N.tx.solve.build_p2sh_lookup(_script_container(sc, self._scripts())) if p["scr"] else None
         if mech == "lookup":
             hl = N.tx.solve.build_hash160_lookup([self.ring.se(k) for k in sorted(p["K"])])
             self.tx.sign(hl, tx_in_idx_set=idx, hash_type=ht, p2sh_lookup=p2sh)
@@ -314,7 +337,7 @@ class Session(object):
             wifs = [self.ring.wif(k, "c" if k % 2 else "u") for k in sorted(p["K"])]
             N.tx_utils.sign_tx(self.tx, wifs=wifs, tx_in_idx_set=idx, hash_type=ht, p2sh_lookup=p2sh)
         elif mech == "keychain":
-            self.kc_add(p["reg"], p["sec"], p["scr"], fresh=p["fresh"])
+            self.kc_add(p["reg"], p["sec"], p["scr"], fresh=p["fresh"], via=p.get("via", "paths"), sc=sc)
             kc = self._live_kc()
             # the same pass on a copy of the transaction with a FRESH keychain given the same contents
             twin = copy.deepcopy(self.tx)
@@ -486,6 +509,10 @@ def frame_of(tx):
             "sequences": [t.sequence for t in tx.txs_in],
             "outputs": [(o.coin_value, bytes(o.script)) for o in tx.txs_out],
             "unspents": [(o.coin_value, bytes(o.script)) for o in tx.unspents]}
+
+
+def unlocking_of_txin(t):
+    return (bytes(t.script), tuple(bytes(w) for w in t.witness))
 
 
 def unlocking_of(tx, i):
@@ -702,6 +729,7 @@ class Recorder(object):
         return {"s": s, "unl": [unlocking_of(tx, i) for i in range(n)],
                 "e": {"mech": mech, "K": sorted(K), "I": [i + 1 for i in I], "ht": 1 if hash_type is None else hash_type,
                       "scr": (all(have) if have else True), "reg": [], "sec": [], "fresh": True, "same_as_fresh": True,
+                      "sc": "list", "via": "paths",
                       "ic": "none" if idx_set is None else {set: "set", frozenset: "set", tuple: "tuple"}.get(type(idx_set), "list")}}
 
     def after(self, tok):
@@ -983,6 +1011,8 @@ class TxUnderTest(object):
             tp.witness, tq.witness = tq.witness, tp.witness
         elif m == "forget":
             tx.unspents[p] = None
+        elif m in ("ss_pushdata", "wit_attach", "wit_append", "ss_prepend"):
+            self._unlocking_mutation(tx.txs_in[p], m, b)
         elif m == "revert":
             ver, lock, tin, tout, uns, meta = copy.deepcopy(self.orig)
             tx.version, tx.lock_time = ver, lock
@@ -992,6 +1022,39 @@ class TxUnderTest(object):
             self.meta = meta
         else:
             raise ValueError(m)
+
+    def _unlocking_mutation(self, tin, m, b):
+        """re-encode / extend the unlocking data of one input without touching anything a signature commits to"""
+        before = unlocking_of_txin(tin)
+        if m == "ss_pushdata":
+            ops = [(op, data, pc, npc) for (op, data, pc, npc) in self.N.script.get_opcodes(tin.script) if data]
+            if not ops:
+                raise NotInjective("no push to re-encode")
+            op, data, pc, npc = ops[-1] if b < 10 else ops[0]
+            how = b % 10
+            hdr = {1: b"\x4c" + len(data).to_bytes(1, "little"), 2: b"\x4d" + len(data).to_bytes(2, "little"),
+                   4: b"\x4e" + len(data).to_bytes(4, "little")}[how]
+            tin.script = bytes(tin.script[:pc]) + hdr + data + bytes(tin.script[npc:])
+        elif m == "wit_attach":
+            tin.witness = [b"\x01"] if b == 1 else [b"\x30" + bytes(70), b"\x02" + bytes(32)]
+        elif m == "wit_append":
+            tin.witness = list(tin.witness) + [b""]
+        elif m == "ss_prepend":
+            tin.script = (b"\x61" if b == 1 else b"\x51") + bytes(tin.script)
+        if unlocking_of_txin(tin) == before:
+            raise NotInjective("unlocking-data mutation %s/%s changed nothing" % (m, b))
+
+    def spend_case(self, i):
+        """the spend of input i as a case for the consensus specification (MC_ScriptRun / VerifyScript.tla),
+        under the flags is_solution_ok validates with"""
+        from . import script as SC
+        tx = self.tx
+        t = tx.txs_in[i]
+        u = tx.unspents[i]
+        prevouts = [["", 0] if x is None else [bytes(x.script).hex(), x.coin_value] for x in tx.unspents]
+        return SC.mk_case("spend", bytes(t.script), bytes(u.script), [bytes(w) for w in t.witness], flags=["P2SH", "WITNESS"],
+                          version=tx.version & 0x7FFFFFFF, locktime=tx.lock_time, sequence=t.sequence, amount=u.coin_value,
+                          tx={"hex": tx.as_hex(), "idx": i, "prevouts": prevouts})
 
     def verdicts(self):
         """what the API reports on the long-lived object and on a fresh object parsed from its bytes,
